@@ -11,8 +11,8 @@ PARTIAL by design (DESIGN.md C19).  Proved here, over `Model/Lint/{Regex,LineRul
 NOT modelled (covered by seeded edits on the implementation in harness/c19.py only): the token-level
 parsers (namespace versus path, forward declarations), MultiConditionChecker, SingleLineValidator,
 strip_comments_and_strings, include order / first include (C20 models the comparison), DepsChecker.
-A defect of the code as written is proved on the model and shown on the implementation:
-`pragma_empty_line_rule_is_dead`.
+The snapshot's dead rule "Empty line after #pragma once" is repaired in /repo; the model follows the
+repaired code and `seeded_blank_after_pragma` states the rule as a seeded-edit theorem.
 -/
 import SymbolVerif.Proofs.RegexLemmas
 import SymbolVerif.Proofs.LineRulesLemmas
@@ -223,29 +223,72 @@ theorem seeded_region_invalid (lines : List Str) (i : Nat) (l : Str) (p : Str) (
   have h2' : ¬ p = [' ', 'e', 'n', 'd'] := by simpa using h2
   simp [regionImmediate, hp, h1, h2', Nat.add_comm]
 
-/-! ### the empty-line rule of PragmaOnceValidator never fires -/
+/-! ### the empty-line rule of PragmaOnceValidator -/
 
-/-- For every file, header or not: `Empty line after #pragma once` is never reported.  (The line
-    `#pragma once` itself starts with `#`, which settles `report_empty_line_error = False` before the
-    first `#include` can be looked at.)  Shown on the implementation by harness/c19.py and recorded in
-    known_findings.jsonl. -/
-theorem pragma_empty_line_rule_is_dead (isHeader : Bool) (lines : List Str) (n : Nat) :
-    ⟨.emptyAfterPragmaOnce, n⟩ ∉ run (pragmaOnce isHeader) lines := by
+/-- the state in which a header is after its licence notice: notice skipped, `#pragma once` not yet
+    looked for, empty-line rule undecided -/
+def AfterNotice (s : PragmaState) : Prop :=
+  s.insideComment = 3 ∧ s.gotPragmaOnce = none ∧ s.reportEmptyLine = none
+
+/-- Pragma family: in a header whose notice is over, an empty line inserted between `#pragma once` and
+    the `#include` that followed it directly is reported (`Empty line after #pragma once`), whatever the
+    rest of the file is.  The linter reports it with the number of the LAST empty line of the file
+    (`empty_line_number` keeps being overwritten), hence `∃ n`.  (The snapshot never reported it: the
+    `#pragma once` line itself switched the rule off; repaired in /repo.) -/
+theorem seeded_blank_after_pragma (pre rest : List Str) (inc : Str)
+    (hpre : AfterNotice (stateAfter (pragmaOnce true) (pragmaOnce true).reset 1 pre))
+    (hinc : startsWith inc "#include" = true) :
+    ∃ n, ⟨.emptyAfterPragmaOnce, n⟩ ∈ run (pragmaOnce true) (pre ++ "#pragma once".toList :: [] :: inc :: rest) := by
+  obtain ⟨h3, hg, hr⟩ := hpre
+  generalize hs0 : stateAfter (pragmaOnce true) (pragmaOnce true).reset 1 pre = s0 at h3 hg hr
+  -- the three lines, one after the other
+  have e1 : pragmaCheck s0 (1 + pre.length) "#pragma once".toList = pragmaOrdinary s0 (1 + pre.length) "#pragma once".toList :=
+    pragmaCheck_ordinary _ _ _ (by decide) h3
+  generalize hs1 : pragmaOrdinary s0 (1 + pre.length) "#pragma once".toList = s1 at e1
+  have s1r : s1.reportEmptyLine = none := by
+    rw [← hs1, pragmaOrdinary_report, if_pos hr, if_neg (by decide), if_neg (by simp [hg])]
+  have s1g : s1.gotPragmaOnce = some true := by
+    rw [← hs1, pragmaOrdinary_got, if_pos hg]; simp
+  have s1i : s1.insideComment = 3 := by
+    rw [← hs1, pragmaOrdinary_inside]; exact h3
+  have e2 : pragmaCheck s1 (1 + pre.length + 1) [] = pragmaOrdinary s1 (1 + pre.length + 1) [] :=
+    pragmaCheck_ordinary _ _ _ (by decide) s1i
+  generalize hs2 : pragmaOrdinary s1 (1 + pre.length + 1) [] = s2 at e2
+  have s2r : s2.reportEmptyLine = none := by
+    rw [← hs2, pragmaOrdinary_report, if_pos s1r, if_neg (by decide), if_neg (fun h => absurd h.1 (by decide))]
+  have s2e : s2.emptyLineNumber = 1 + pre.length + 1 := by
+    rw [← hs2, pragmaOrdinary_empty, if_pos ⟨s1g, rfl⟩]
+  have s2i : s2.insideComment = 3 := by
+    rw [← hs2, pragmaOrdinary_inside]; exact s1i
+  have e3 : pragmaCheck s2 (1 + pre.length + 1 + 1) inc = pragmaOrdinary s2 (1 + pre.length + 1 + 1) inc :=
+    pragmaCheck_ordinary _ _ _ (not_comment_of_include inc hinc) s2i
+  have s3r : (pragmaCheck s2 (1 + pre.length + 1 + 1) inc).reportEmptyLine = some true := by
+    rw [e3, pragmaOrdinary_report, if_pos s2r, if_pos hinc, s2e]
+    simp
+  -- the rest of the file cannot take the decision back
+  have hfinal : (stateAfter (pragmaOnce true) (pragmaOnce true).reset 1
+      (pre ++ "#pragma once".toList :: [] :: inc :: rest)).reportEmptyLine = some true := by
+    rw [stateAfter_append, hs0]
+    simp only [stateAfter]
+    apply pragma_stateAfter_report_some
+    show (pragmaCheck (pragmaCheck (pragmaCheck s0 (1 + pre.length) "#pragma once".toList) (1 + pre.length + 1) [])
+      (1 + pre.length + 1 + 1) inc).reportEmptyLine = some true
+    rw [e1, e2]; exact s3r
+  refine ⟨(stateAfter (pragmaOnce true) (pragmaOnce true).reset 1
+      (pre ++ "#pragma once".toList :: [] :: inc :: rest)).emptyLineNumber, ?_⟩
   unfold run
   rw [runFrom_eq, pragma_checkReports_nil, List.nil_append]
-  have hinit : PragmaInv (pragmaOnce isHeader).reset := by
-    cases isHeader <;> simp [pragmaOnce, PragmaInv]
-  have hinv := pragma_stateAfter_inv isHeader lines _ 1 hinit
-  generalize stateAfter (pragmaOnce isHeader) (pragmaOnce isHeader).reset 1 lines = s at hinv
-  obtain ⟨h1, _⟩ := hinv
-  intro hmem
-  simp only [pragmaOnce, List.mem_append] at hmem
-  rcases hmem with (hmem | hmem) | hmem
-  · split at hmem <;> simp at hmem
-  · split at hmem <;> simp at hmem
-  · split at hmem
-    · next hb => exact h1 (by simpa using hb)
-    · simp at hmem
+  generalize stateAfter (pragmaOnce true) (pragmaOnce true).reset 1
+      (pre ++ "#pragma once".toList :: [] :: inc :: rest) = sf at hfinal ⊢
+  simp only [pragmaOnce, List.mem_append]
+  refine Or.inr ?_
+  rw [hfinal]
+  simp
+
+/-- a typical notice brings a header into the state the theorem asks for -/
+example : AfterNotice (stateAfter (pragmaOnce true) (pragmaOnce true).reset 1
+    ["/**".toList, "*** Copyright".toList, "**/".toList, [] ]) := by
+  refine ⟨?_, ?_, ?_⟩ <;> decide +kernel
 
 /-! ### exit status -/
 
